@@ -188,7 +188,26 @@ def events_match(a, b):
   ta, tb = a.terms(), b.terms()
   if len(ta) != len(tb):
     return False, None
-  return True, z3.And([x == y for x, y in zip(ta, tb)] or [z3.BoolVal(True)])
+  conj = [x == y for x, y in zip(ta, tb)]
+  # an argument that is a container must also have the same CONTENTS on both sides at the time of the
+  # call (allocation sites are named alike on both sides, so equal references alone prove nothing)
+  ha, hb = a.heap, b.heap
+  if ha is not None and hb is not None:
+    e = z3.Const(fresh_name('ce'), U)
+    i = z3.Const(fresh_name('ci'), I)
+    for x in ta:
+      if x.sort() != U:
+        continue
+      for comp, mk in (('mem', lambda h: h.mem(x, e)), ('lmem', lambda h: h.lmem(x, e)), ('dom', lambda h: h.dom(x, e))):
+        if ha.c.get(comp) is not hb.c.get(comp):
+          conj.append(z3.ForAll([e], mk(ha) == mk(hb)))
+      if ha.c.get('val') is not hb.c.get('val'):
+        conj.append(z3.ForAll([e], z3.Implies(ha.dom(x, e), ha.val(x, e) == hb.val(x, e))))
+      if ha.c.get('len') is not hb.c.get('len'):
+        conj.append(ha.len(x) == hb.len(x))
+      if ha.c.get('item') is not hb.c.get('item'):
+        conj.append(z3.ForAll([i], z3.Implies(z3.And(i >= 0, i < ha.len(x)), ha.item(x, i) == hb.item(x, i))))
+  return True, z3.And(conj or [z3.BoolVal(True)])
 
 
 def relabel(segments, mapping):
